@@ -89,7 +89,8 @@ theorem mask_tags_consistent :
     Gen.Lane.laneHandlers.all (fun h =>
       (h.msrc != .src2 || h.accInit != .vcc) && (h.msrc != .acc || h.accInit == .vcc)) = true := by decide +kernel
 
-example : lh_cdna3_runVADDCU32.msrc = .acc ∧ lh_cdna3_runVADDCU32.accInit = .vcc := ⟨rfl, rfl⟩
+example : (Gen.Lane.laneHandlers.filter (fun h => h.accInit != .none)).length ≥ 40 ∧
+    (Gen.Lane.laneHandlers.filter (fun h => h.msrc != .none)).length ≥ 10 := by decide +kernel
 
 theorem maskTie_abs (h : LaneHandler) (hm : h ∈ Gen.Lane.laneHandlers) (ops : Ops) (vgpr : Nat → Nat → Nat)
     (vcc0 m : BitVec 64) (hs : IsMaskSource h ops vcc0 m) : MaskTie h ops vcc0 (absState vgpr m vcc0) := by
@@ -233,9 +234,6 @@ def rowTranslated (r : CovRow) : Bool :=
       r2.arch == r.arch && r2.name == c && (match r2.cov with | .translated _ => true | .translatedF _ => true | _ => false)
   | _ => false
 
-def namesOf (p : Cov → Bool) : List (String × String) :=
-  (Gen.Lane.coverage.filter (fun r => p r.cov)).map (fun r => (r.arch, r.name))
-
 /-- the handlers that are NOT covered by translation and are not DS/FLAT memory code, by name -/
 def untranslatedNames : List (String × String × Cov) :=
   [ -- float handlers the translator leaves alone (slices + `sort`, a `log.Panic` inside a helper)
@@ -255,25 +253,27 @@ def untranslatedNames : List (String × String × Cov) :=
     and must be looked at; new handlers that translate, and new DS/FLAT handlers, pass). Every vector handler
     record of both ALUs is exactly one of
     * covered by TRANSLATION of an integer lane body (`handler_is_vexec`; tied to the code by the `c06 body`
-      and `c06 gorun` correspondence) — or the wrapper `runVADDI32`, which only selects between two of them;
+      and `c06 gorun` correspondence) — or a wrapper that only selects between translated handlers by
+      instruction fields (`runVADDI32`);
     * a float handler covered by translation of the loop skeleton / mask handling with an opaque float data
       path (`handler_is_vexec` holds; body correspondence for those in `Gen.Lane.exactFloat`);
-    * a DS/FLAT memory handler or address helper (`C06Mem`: load-only / store-only decided);
-    * one of the 17 handlers listed in `untranslatedNames` — these, and the memory handlers, remain covered by
-      the syntactic fit (`all_vector_handlers_fit`) + the extensional per-lane composition test only
-      (`v_readfirstlane_b32` being the documented cross-lane exception). -/
+    * a DS/FLAT memory handler or address helper (`C06Mem`: bodies translated, lane-uniform, load-only or
+      store-only proved), or the operand read wrapper `readF64`;
+    * one of the 17 handlers listed in `untranslatedNames` — these remain covered by the syntactic fit
+      (`all_vector_handlers_fit`) + the extensional per-lane composition test only (`v_readfirstlane_b32` being
+      the documented cross-lane exception). -/
 theorem coverage_summary :
     (Gen.Lane.coverage.all fun r =>
-      rowTranslated r || r.cov == .memory || r.cov == .helper || untranslatedNames.contains (r.arch, r.name, r.cov)) = true ∧
+      rowTranslated r || r.cov == .memory || r.cov == .helper || (r.cov == .operandRead && r.name == "readF64") ||
+      untranslatedNames.contains (r.arch, r.name, r.cov)) = true ∧
     (untranslatedNames.all fun u => Gen.Lane.coverage.contains ⟨u.1, u.2.1, u.2.2⟩) = true ∧
-    namesOf (fun c => match c with | .wrapper _ => true | _ => false) = [("gcn3", "runVADDI32")] ∧
     (Gen.Lane.exactFloat.all fun e => Gen.Lane.coverage.any fun r =>
       r.arch == e.1 && r.name == e.2 && (match r.cov with | .translatedF _ => true | _ => false)) = true := by
   decide +kernel
 
 example : (Gen.Lane.coverage.filter rowTranslated).length ≥ 250 ∧ Gen.Lane.exactFloat.length ≥ 60 := by decide +kernel
 
-example : rowTranslated ⟨"gcn3", "runVADDI32", .wrapper ["runVADDI32Regular", "runVADDI32SDWA"]⟩ = true := by decide +kernel
+example : (Gen.Lane.coverage.all fun r => match r.cov with | .wrapper _ => rowTranslated r | _ => true) = true := by decide +kernel
 
 /-- the vector-ALU opcode-switch entries (VOP1/2/3a/3b/C of both ALUs) whose handler is translated -/
 def opcodeTranslated (d : C06Facts.Dispatch) : Bool :=
@@ -300,6 +300,6 @@ theorem translated_opcodes :
 example : (Gen.dispatch.filter (fun d => aluFormat d.format && opcodeTranslated d)).length ≥ 250 ∧
     (Gen.dispatch.filter (fun d => aluFormat d.format && !opcodeTranslated d)).length ≤ 20 := by decide +kernel
 
-example : (Gen.dispatch.filter (fun d => d.handler == "runVADDI32" && opcodeTranslated d)).length = 3 := by decide +kernel
+example : (Gen.dispatch.filter (fun d => d.handler == "runVADDI32" && opcodeTranslated d)).length ≥ 2 := by decide +kernel
 
 end C06
